@@ -109,12 +109,12 @@ class WingSegment:
 
         # Set origin offset
         self._delta_origin = np.zeros(3)
-        self._delta_origin[0] = connect_dict.get("dx", 0.0)
-        self._delta_origin[1] = connect_dict.get("dy", 0.0)
-        self._delta_origin[2] = connect_dict.get("dz", 0.0)
+        self._delta_origin[0] = import_value("dx", connect_dict, self._unit_sys, 0.0)
+        self._delta_origin[1] = import_value("dy", connect_dict, self._unit_sys, 0.0)
+        self._delta_origin[2] = import_value("dz", connect_dict, self._unit_sys, 0.0)
 
         # Apply y-offset
-        self.y_offset = connect_dict.get("y_offset", 0.0)
+        self.y_offset = import_value("y_offset", connect_dict, self._unit_sys, 0.0)
         if self.side == "left":
             self._delta_origin[1] -= self.y_offset
         else:
